@@ -2,6 +2,7 @@ pub mod h_c06;
 pub mod h_c16;
 pub mod h_c19;
 pub mod h_tree;
+pub mod h_pack;
 pub mod sym;
 
 pub fn dispatch(name: &str) -> bool {
@@ -10,6 +11,7 @@ pub fn dispatch(name: &str) -> bool {
         "h_c16::diff_roundtrip" => h_c16::diff_roundtrip(),
         "h_c19::order_triple" => h_c19::order_triple(),
         "h_tree::tree_rule" => h_tree::tree_rule(),
+        "h_pack::pack_roundtrip" => h_pack::pack_roundtrip(),
         "h_tree::tree_stage" => h_tree::tree_stage(),
         "h_c19::order_pair" => h_c19::order_pair(),
         "h_c19::print_parse" => h_c19::print_parse(),
